@@ -57,13 +57,14 @@ def atomOf (cs : List Char) : SExp :=
 
 /-- tokenise: parens are tokens, whitespace separates. -/
 def tokens (s : String) : List String :=
+  let flush (cur : List Char) (acc : List String) : List String :=
+    if cur.isEmpty then acc else String.ofList cur.reverse :: acc
   let rec go (cs : List Char) (cur : List Char) (acc : List String) : List String :=
-    let flush := if cur.isEmpty then acc else String.ofList cur.reverse :: acc
     match cs with
-    | [] => flush.reverse
+    | [] => (flush cur acc).reverse
     | c :: rest =>
-      if c = '(' || c = ')' then go rest [] (String.singleton c :: flush)
-      else if c = ' ' || c = '\n' || c = '\t' || c = '\r' then go rest [] flush
+      if c = '(' || c = ')' then go rest [] (String.singleton c :: flush cur acc)
+      else if c = ' ' || c = '\n' || c = '\t' || c = '\r' then go rest [] (flush cur acc)
       else go rest (c :: cur) acc
   go s.toList [] []
 
